@@ -19,8 +19,13 @@ into a list of steps of `Pyunicorn.Pure.WStep` (Model/PureWindow.lean):
             `self.X` where X is defined by a `def` in some class of the package (a property or
             a bound method that numpy might call back)
   exit W    return / raise / assert / yield / await anywhere in the statement
+  tryB / fin / tryE
+            a `try: … finally: …` statement (no `except` / `else` clause) that is a direct child
+            of the block is flattened: its body between tryB and fin, its `finally` clause
+            between fin and tryE
   other W   x or m assigned again inside the block, an edit that is not a direct child of the
-            block, try / with / match / nested def inside the block, edits in several blocks
+            block (or of such a try's body / finally clause), any other try / with / match /
+            nested def inside the block
 
 Steps of one statement are emitted in evaluation order: calls, then exit | edit | mask | comp.
 Every step carries the line range of its statement (dynamic tie: harness/c06_window.py).
@@ -138,19 +143,28 @@ class Block:
         return False
 
 
+def plain_try(st):
+    return isinstance(st, ast.Try) and st.finalbody and not st.handlers and not st.orelse
+
+
 def find_block(body, lines):
-    """innermost statement list containing statements at all the given lines as direct children"""
-    direct = {st.lineno for st in body}
-    if all(ln in direct for ln in lines):
-        return body
+    """innermost statement list whose span contains all the given lines (`try … finally`
+    statements are not descended into: they are flattened by the caller)"""
     for st in body:
+        if plain_try(st):
+            continue
         for field in ("body", "orelse", "finalbody"):
             sub = getattr(st, field, None)
             if isinstance(sub, list) and sub and isinstance(sub[0], ast.stmt):
                 lo, hi = sub[0].lineno, max(getattr(s, "end_lineno", s.lineno) for s in sub)
                 if all(lo <= ln <= hi for ln in lines):
                     return find_block(sub, lines)
-    return None
+        for h in getattr(st, "handlers", []) or []:
+            sub = h.body
+            lo, hi = sub[0].lineno, max(getattr(s, "end_lineno", s.lineno) for s in sub)
+            if all(lo <= ln <= hi for ln in lines):
+                return find_block(sub, lines)
+    return body
 
 
 def windows(mods, per_func, table):
@@ -177,42 +191,54 @@ def windows(mods, per_func, table):
             steps.append({"kind": kind, "what": what, "line": st.lineno,
                           "end": getattr(st, "end_lineno", st.lineno)})
         block = find_block(f.body, edit_lines)
-        if block is None:
-            steps.append({"kind": "other", "what": "edits not in one block", "line": f.lineno,
-                          "end": f.lineno})
-            out.append({"site": site, "form": form, "var": var, "mask": mask, "consts": consts,
-                        "steps": steps, "module": mod, "cls": cls, "func": func})
-            continue
         B = Block(selfname, var, mask or "", defs)
-        bound = False
-        for st in block:
-            if isinstance(st, ast.Expr) and isinstance(st.value, ast.Constant):
-                continue                    # docstring / bare constant: nothing is executed
-            is_edit = st.lineno in edit_lines
-            #  the statement binding x (`x = self.path_lengths(..)`): obtains the shared object
-            if not bound and isinstance(st, ast.Assign) and len(st.targets) == 1 and \
-                    isinstance(st.targets[0], ast.Name) and st.targets[0].id == var:
-                bound = True
+        bound = [False]
+        emitted_edits = set()
+
+        def marker(kind, st, line):
+            steps.append({"kind": kind, "what": "", "line": line, "end": line, "marker": True})
+
+        def emit_stmts(stmts, depth):
+            for st in stmts:
+                if isinstance(st, ast.Expr) and isinstance(st.value, ast.Constant):
+                    continue                    # docstring / bare constant: nothing is executed
+                if plain_try(st) and depth == 0:
+                    marker("tryB", st, st.lineno)
+                    emit_stmts(st.body, 1)
+                    marker("fin", st, -st.lineno)
+                    emit_stmts(st.finalbody, 1)
+                    marker("tryE", st, -st.lineno - 1)
+                    continue
+                is_edit = st.lineno in edit_lines
+                #  the statement binding x (`x = self.path_lengths(..)`): obtains the shared object
+                if not bound[0] and isinstance(st, ast.Assign) and len(st.targets) == 1 and \
+                        isinstance(st.targets[0], ast.Name) and st.targets[0].id == var:
+                    bound[0] = True
+                    for k, w in B.call_steps(st):
+                        emit(k, w, st)
+                    continue
+                if not is_edit and B.assigns(st, var):
+                    emit("other", f"{var} assigned again", st)
+                    continue
                 for k, w in B.call_steps(st):
                     emit(k, w, st)
-                continue
-            if not is_edit and B.assigns(st, var):
-                emit("other", f"{var} assigned again", st)
-                continue
-            for k, w in B.call_steps(st):
-                emit(k, w, st)
-            exits = [n for n in ast.walk(st) if isinstance(
-                n, (ast.Return, ast.Raise, ast.Assert, ast.Yield, ast.YieldFrom, ast.Await))]
-            for n in exits:
-                emit("exit", type(n).__name__.lower(), st)
-            if is_edit:
-                emit("restore" if st.lineno == edit_lines[-1] else "edit", "", st)
-            elif mask and B.is_mask_def(st):
-                emit("mask", "", st)
-            elif mask and B.assigns(st, mask):
-                emit("other", f"{mask} assigned again", st)
-            elif not exits:
-                emit("comp", "", st)
+                exits = [n for n in ast.walk(st) if isinstance(
+                    n, (ast.Return, ast.Raise, ast.Assert, ast.Yield, ast.YieldFrom, ast.Await))]
+                for n in exits:
+                    emit("exit", type(n).__name__.lower(), st)
+                if is_edit:
+                    emitted_edits.add(st.lineno)
+                    emit("restore" if st.lineno == edit_lines[-1] else "edit", "", st)
+                elif mask and B.is_mask_def(st):
+                    emit("mask", "", st)
+                elif mask and B.assigns(st, mask):
+                    emit("other", f"{mask} assigned again", st)
+                elif not exits:
+                    emit("comp", "", st)
+        emit_stmts(block, 0)
+        if emitted_edits != set(edit_lines):
+            steps.append({"kind": "other", "what": "edit in a nested block", "line": f.lineno,
+                          "end": f.lineno})
         out.append({"site": site, "form": form, "var": var, "mask": mask, "consts": consts,
                     "steps": steps, "module": mod, "cls": cls, "func": func})
     return out
